@@ -109,6 +109,111 @@ def _enter(entry, spec, root, opts, on_init, captured):
                     pass
 
 
+class LoopRecorder:
+    """Records the operations of Conductor.monitor_study in the order they happen (the alphabet of
+    Model/Conductor.lean): the look at the cancel lock file, the file lock, cancel_study, the removal
+    of the file, the poll, the snapshot, the status table, the sleep."""
+
+    def __init__(self):
+        self.ops = []
+        self.fail_acquire = 0      # how many times the file lock of the request cannot be had
+        self.on_cancel = None      # called when the conductor acts on the request
+
+    def install(self, cmod):
+        import filelock
+        rec = self
+        real_lock = cmod.FileLock
+        self._saved = (cmod.FileLock, cmod.os)
+
+        class RecLock:
+            def __init__(self, path, *a, **k):
+                self._path = path
+                self._l = real_lock(path, *a, **k)
+
+            def acquire(self, *a, **k):
+                if not str(self._path).endswith(".cancel.lock"):
+                    return self._l.acquire(*a, **k)
+                if rec.fail_acquire > 0:
+                    rec.fail_acquire -= 1
+                    rec.ops.append("lockAcquire(0)")
+                    raise filelock.Timeout(self._path)
+                rec.ops.append("lockAcquire(1)")
+                return self._l.acquire(*a, **k)
+
+        class _Path:
+            def __getattr__(self, name):
+                return getattr(os.path, name)
+
+            def exists(self, p):
+                r = os.path.exists(p)
+                if str(p).endswith(".cancel.lock"):
+                    rec.ops.append("lockCheck(%d)" % int(r))
+                return r
+
+        class _OS:
+            path = _Path()
+
+            def __getattr__(self, name):
+                return getattr(os, name)
+
+            def remove(self, p):
+                if str(p).endswith(".cancel.lock"):
+                    rec.ops.append("lockRemove")
+                return os.remove(p)
+        cmod.FileLock = RecLock
+        cmod.os = _OS()
+
+    def uninstall(self, cmod):
+        cmod.FileLock, cmod.os = self._saved
+
+    def wrap_graph(self, dag):
+        rec = self
+
+        def wrap(name, label):
+            orig = getattr(dag, name)
+
+            def f(*a, **k):
+                if label != "poll":
+                    rec.ops.append(label)
+                    if label == "cancelStudy" and rec.on_cancel:
+                        rec.on_cancel()
+                    return orig(*a, **k)
+                rec.ops.append("poll")
+                try:
+                    r = orig(*a, **k)
+                except RuntimeError:
+                    rec.ops.append("=RAISED")
+                    raise
+                rec.ops.append("=" + r.name)
+                return r
+            setattr(dag, name, f)
+        wrap("cancel_study", "cancelStudy")
+        wrap("execute_ready_steps", "poll")
+        wrap("pickle", "pickle")
+        wrap("write_status", "writeStatus")
+
+    def lines(self):
+        """(model line, recorded trace): the iterations' environment (lock file seen, file lock
+        obtained, what the poll returned) and everything that was done, iteration by iteration"""
+        iters, cur = [], None
+        for o in self.ops:
+            if o.startswith("lockCheck"):
+                cur = {"l": o[10], "a": "0", "r": None, "ops": []}
+                iters.append(cur)
+            if cur is None:
+                cur = {"l": "?", "a": "0", "r": None, "ops": []}
+                iters.append(cur)
+            if o.startswith("="):
+                cur["r"] = o[1:]
+                continue
+            if o == "lockAcquire(1)":
+                cur["a"] = "1"
+            cur["ops"].append(o)
+        iters = [i for i in iters if i["r"] is not None]       # an iteration cut short by the harness
+        model = "cond.trace " + " ".join("%s:%s:%s" % (i["l"], i["a"], i["r"]) for i in iters)
+        return model, " | ".join(" ".join(i["ops"]) for i in iters)
+
+
 def deliver_cancel(rng, root):
     """the cancel request, the way a user delivers it: half of the time through the real
     `maestro cancel <dir> [<another dir>]` command (answering its confirmation prompt), otherwise
@@ -176,6 +281,7 @@ def run(ctx, rng, k, cancel_prob=0.0, max_polls=40, local_prob=0.0, entry="direc
                 if src != "_source" and d in par:
                     par[d].append(src)
         env["parents"] = par
+        env["rec"].wrap_graph(dag_)
         if cancel_prob and r2.random() < cancel_prob / 2:
             # the request is already there when the conductor starts polling
             S.WORLD.cancel_code = "OK" if r2.random() < 0.6 else "ERROR"
@@ -246,7 +352,7 @@ def run(ctx, rng, k, cancel_prob=0.0, max_polls=40, local_prob=0.0, entry="direc
             if snap is not None and (snap.values[nm].jobid[-1:] != live.jobid[-1:] or
                                      snap.values[nm].restarts != live.restarts):
                 mon["C18"].append(("snapshot-agrees", "poll %d: %s job/restarts differ in the snapshot" % (k_, nm)))
-        if st["cancel_at"] is not None and os.path.exists(lock) and st["polls"] > st["cancel_at"] + 1:
+        if st["cancel_at"] is not None and os.path.exists(lock) and st["polls"] > st["cancel_at"] + 1 + st.get("lock_timeouts", 0):
             mon["C07"].append(("lock-consumed", "poll %d: the cancel lock is still there" % k_))
         if k_ > max_polls:
             raise Stop()
@@ -255,6 +361,9 @@ def run(ctx, rng, k, cancel_prob=0.0, max_polls=40, local_prob=0.0, entry="direc
         fair = k_ >= fair_from
         if not fair and st["cancel_at"] is None and rng.random() < cancel_prob:
             st["how"] = deliver_cancel(rng, root)
+            if rng.random() < 0.2:
+                rec.fail_acquire = rng.choice([1, 1, 2])     # the request file is still being written
+                st["lock_timeouts"] = rec.fail_acquire
             S.WORLD.cancel_code = "OK" if rng.random() < 0.6 else "ERROR"
             st["cancel_at"] = k_
             st["events_at_cancel"] = len(S.WORLD.all_events)
@@ -276,7 +385,20 @@ def run(ctx, rng, k, cancel_prob=0.0, max_polls=40, local_prob=0.0, entry="direc
         S.WORLD.events = []
 
     saved = cmod.sleep
-    cmod.sleep = hook
+    rec = LoopRecorder()
+    env["rec"] = rec
+
+    def observed():
+        # "once a cancel request has been observed": a request whose file lock timed out is observed
+        # in a later iteration; what was submitted in between does not count
+        st["events_at_cancel"] = len(S.WORLD.all_events)
+    rec.on_cancel = observed
+
+    def sleep_hook(t):
+        rec.ops.append("sleep")
+        hook(t)
+    cmod.sleep = sleep_hook
+    rec.install(cmod)
     captured = {}
     code = None
     try:
@@ -292,6 +414,7 @@ def run(ctx, rng, k, cancel_prob=0.0, max_polls=40, local_prob=0.0, entry="direc
             raise
     finally:
         cmod.sleep = saved
+        rec.uninstall(cmod)
     if "dag" not in env or ret is None:
         return None
     dag, names = env["dag"], env["names"]
@@ -360,4 +483,4 @@ def run(ctx, rng, k, cancel_prob=0.0, max_polls=40, local_prob=0.0, entry="direc
         mon["C05"].append(("terminates", "monitor_study did not return within %d polls of a fair tail" % max_polls))
     return {"mon": mon, "polls": st["polls"], "ret": ret, "spec": spec, "nontrivial": st["nontrivial"],
             "cancelled": st["cancel_at"], "cancel_how": st.get("how"), "entry": entry, "exit": code,
-            "options": opts}
+            "options": opts, "loop": rec.lines() if ret != "NONTERMINATION" else None}
